@@ -334,6 +334,19 @@ func main() {
 	}})
 	states += res.States
 	trans += res.Transitions
+	// Large-size family: up to 300 values with duplicates in three arrival orders and two sort
+	// orders against a sorted-slice model (positions returned by Add/Index/Remove, Get, Contains)
+	famCalls := 0
+	for _, ord := range []order{asc, desc} {
+		for _, mod := range []int{1000003, 11, 2} {
+			for _, kind := range []string{"asc", "desc", "scramble"} {
+				if msg := bigSorted(ord, ev.Pick(r, 130, 300), mod, kind, &famCalls); msg != "" {
+					r.Report(ev.Violation{Sig: "family|sorted", Msg: msg, Replay: map[string]any{"order": int(ord), "mod": mod, "arrival": kind}})
+				}
+			}
+		}
+	}
+	r.Set("large_size_family_calls", famCalls)
 	// nil / uninitialised receivers
 	var ns *slices.Sorted[int]
 	if ns.Len() != 0 {
@@ -347,4 +360,97 @@ func main() {
 	r.Set("size_bound", n)
 	r.Set("rule", "explicit-state BFS to fixpoint from NewSortedOrdered/NewSorted over every initial slice on {0,1,2} up to the given length, for the orders < and > (strict total orders) with alphabet Add(0..2), Remove(-1..3: absent below/inside/above), RemoveAt(-1..Len), and for a key-only less on (key,tag) pairs (ties); sorted-slice model compared through Get/Len/String/Index/Contains after every transition; caller's slice checked for copy semantics")
 	r.Finish()
+}
+
+func bigSorted(ord order, n, mod int, kind string, calls *int) string {
+	less := func(a, b int) bool {
+		if ord == desc {
+			return a > b
+		}
+		return a < b
+	}
+	var init []int
+	for i := 0; i < 20; i++ {
+		init = append(init, (i*37)%mod%50)
+	}
+	caller := append([]int{}, init...)
+	s := slices.NewSorted(caller, less)
+	for i := range caller {
+		if caller[i] != init[i] {
+			return "NewSorted reordered the caller's slice"
+		}
+		caller[i] = -99
+	}
+	model := append([]int{}, init...)
+	sort.SliceStable(model, func(i, j int) bool { return less(model[i], model[j]) })
+	lower := func(v int) int { return sort.Search(len(model), func(i int) bool { return !less(model[i], v) }) }
+	check := func(what string) string {
+		*calls++
+		if s.Len() != len(model) {
+			return fmt.Sprintf("%s: Len = %d, want %d", what, s.Len(), len(model))
+		}
+		for i, v := range model {
+			if s.Get(i) != v {
+				return fmt.Sprintf("%s: Get(%d) = %d, want %d (len %d)", what, i, s.Get(i), v, len(model))
+			}
+		}
+		return ""
+	}
+	val := func(i int) int {
+		switch kind {
+		case "asc":
+			return i % mod
+		case "desc":
+			return (n - i) % mod
+		}
+		return (i*7919 + 5) % n % mod
+	}
+	for i := 0; i < n; i++ {
+		v := val(i)
+		want := lower(v)
+		if got := s.Add(v); got != want {
+			return fmt.Sprintf("Add(%d) at size %d returned %d, want %d", v, len(model), got, want)
+		}
+		model = append(model, 0)
+		copy(model[want+1:], model[want:])
+		model[want] = v
+		if i%9 == 0 || i > n-5 {
+			if m := check(fmt.Sprintf("after %d Adds", i+1)); m != "" {
+				return m
+			}
+		}
+		for _, q := range []int{v, v + 1, -3} {
+			wi := -1
+			if k := lower(q); k < len(model) && model[k] == q {
+				wi = k
+			}
+			if gi := s.Index(q); gi != wi || s.Contains(q) != (wi >= 0) {
+				return fmt.Sprintf("Index(%d) = %d (Contains %v), want %d at size %d", q, gi, s.Contains(q), wi, len(model))
+			}
+		}
+	}
+	for i := 0; i < n+20; i++ {
+		v := val((i * 3) % (n + 7))
+		want := -1
+		if k := lower(v); k < len(model) && model[k] == v {
+			want = k
+		}
+		if got := s.Remove(v); got != want {
+			return fmt.Sprintf("Remove(%d) at size %d returned %d, want %d", v, len(model), got, want)
+		}
+		if want >= 0 {
+			model = append(model[:want], model[want+1:]...)
+		}
+		if i%5 == 0 && len(model) > 2 {
+			k := (i * 13) % len(model)
+			s.RemoveAt(k)
+			model = append(model[:k], model[k+1:]...)
+		}
+		if i%9 == 0 {
+			if m := check(fmt.Sprintf("after %d Removes", i+1)); m != "" {
+				return m
+			}
+		}
+	}
+	return check("at the end")
 }
